@@ -126,6 +126,9 @@ def replay(run, p, f0, hist, idx):
     except Exception as e:
         import traceback
 
+        from ..common import reraise_if_harness
+
+        reraise_if_harness(e)
         tb = traceback.extract_tb(e.__traceback__)
         tr["err"] = True
         tr["exception"] = "%s: %s" % (type(e).__name__, str(e)[:200])
